@@ -175,15 +175,19 @@ def algebraic_solves(ck, prog, tier):
     ns = range(2, 7) if tier == "quick" else range(2, 10)
     solve = prog.fn(CLS + "::solveInPlace")
     ctor = [f for f in prog.fns(CLS + "::SymmetricTridiagonalSolver") if f.get("special") == "ctor"][0]
+    # generic symbols, plus the special values the property names and a generic symbol never takes: zero sub-diagonals, a
+    # zero corner, both (exact constants, so that `== 0.0` fast paths are really taken)
+    variants = [("", False, False)]
     for cyclic in (False, True):
-        for n in ns:
-            key = "n=%d cyclic=%s" % (n, cyclic)
+      for (vname, zero_sub, zero_corner) in ([("", False, False), (" zero sub-diagonals", True, False)] + ([(" zero corner", False, True), (" zero corner and sub-diagonals", True, True)] if cyclic else [])):
+        for n in (ns if not vname else [k_ for k_ in ns if k_ in (2, 3, 5)]):
+            key = "n=%d cyclic=%s%s" % (n, cyclic, vname)
             ck.instance("R-C14-4", key)
             from gmg.conc import PtrInto
             from gmg import forkdom
             a = [dag.atom("a_%d" % i) for i in range(n)]
-            b = [dag.atom("b_%d" % i) for i in range(n - 1)]
-            c = dag.atom("c")
+            b = [dag.ZERO if zero_sub else dag.atom("b_%d" % i) for i in range(n - 1)]
+            c = dag.ZERO if zero_corner else dag.atom("c")
             # the matrix as the class documents it: symmetric tridiagonal + corner (0,n-1),(n-1,0) when cyclic
             A = {}
             for i in range(n):
@@ -227,8 +231,10 @@ def algebraic_solves(ck, prog, tier):
                         if rep == 0:
                             dag.div = logging_div
                         it.call_function(solve, o, [PtrInto(x, 0), PtrInto(t1, 0), PtrInto(t2, 0)])
-                    except ir.AnalysisBroken as e:
-                        return "interpretation failed: %s" % e, False, dom, denoms
+                    except ir.AnalysisBroken:
+                        raise   # a limit of the analysis is not a finding about the code
+                    except ZeroDivisionError as e:
+                        return "solve #%d: %s (a quantity that is identically zero for this matrix): the result is inf/NaN" % (rep + 1, e), False, dom, denoms
                     except (forkdom.Aborts, ThrowEx) as e:
                         return "the solver rejects the matrix: %s" % (getattr(e, "what", e),), True, dom, denoms
                     finally:
@@ -237,12 +243,18 @@ def algebraic_solves(ck, prog, tier):
                     results.append(sol)
                     if dom.oob:
                         return "solve #%d: out-of-range access %s[%s] (length %s) at %s" % ((rep + 1,) + tuple(dom.oob[0])), False, dom, denoms
-                    for i in range(n):
-                        lhs = dag.total(dag.mul(A[(i, j)], sol[j]) for j in range(n) if (i, j) in A)
-                        if not dag.equal(lhs, dag.atom("rhs_%d" % i)):
-                            return "solve #%d: row %d of A x - b does not vanish (A = tridiag(a,b)%s)" % (rep + 1, i, " + corner c" if cyclic else ""), False, dom, denoms
-                if any(not dag.equal(p_, q_) for p_, q_ in zip(results[0], results[1])):
-                    return "the second solve with the same object returns a different solution", False, dom, denoms
+                    try:
+                        for i in range(n):
+                            lhs = dag.total(dag.mul(A[(i, j)], sol[j]) for j in range(n) if (i, j) in A)
+                            if not dag.equal(lhs, dag.atom("rhs_%d" % i)):
+                                return "solve #%d: row %d of A x - b does not vanish (A = tridiag(a,b)%s)" % (rep + 1, i, " + corner c" if cyclic else ""), False, dom, denoms
+                    except ZeroDivisionError:
+                        return "solve #%d divides by a quantity that is identically zero for this matrix: the result is inf/NaN" % (rep + 1), False, dom, denoms
+                try:
+                    if any(not dag.equal(p_, q_) for p_, q_ in zip(results[0], results[1])):
+                        return "the second solve with the same object returns a different solution", False, dom, denoms
+                except ZeroDivisionError:
+                    return "a solve divides by a quantity that is identically zero for this matrix: the result is inf/NaN", False, dom, denoms
                 return None, False, dom, denoms
             bad, aborted, dom0, denoms = run_solves(None)
             if aborted:
@@ -255,7 +267,7 @@ def algebraic_solves(ck, prog, tier):
                     if bad2 and not aborted2:
                         bad = "when the value test at %s takes its other outcome the solve carries on and: %s" % (d2.flipped_site, bad2)
                         break
-            if not bad:
+            if not bad and not vname:
                 # ---- R-C14-5: no denominator of the first solve (factorisation + substitution) changes sign over SPD inputs
                 ck.instance("R-C14-5", key)
                 flips = spd_sign_changes(n, cyclic, A, a, b, c, denoms)
